@@ -102,6 +102,46 @@ def sort_lines (text : Str) (dedupe : Bool) : Str :=
   (let answer : Str := (join ([(Char.ofNat 10)] : Str) (sortStr lines))
   (leading ++ answer ++ trailing))
 
+-- gapic/schema/wrappers.py — Service.client_name
+def service_client_name (self_is_internal : Bool) (self_name : Str) : Str :=
+  (((if self_is_internal then (['B', 'a', 's', 'e'] : Str) else ([] : Str)) ++ self_name) ++ (['C', 'l', 'i', 'e', 'n', 't'] : Str))
+
+-- gapic/schema/wrappers.py — Service.async_client_name
+def service_async_client_name (self_is_internal : Bool) (self_name : Str) : Str :=
+  (((if self_is_internal then (['B', 'a', 's', 'e'] : Str) else ([] : Str)) ++ self_name) ++ (['A', 's', 'y', 'n', 'c', 'C', 'l', 'i', 'e', 'n', 't'] : Str))
+
+-- gapic/schema/wrappers.py — Service.transport_name
+def service_transport_name (self_name : Str) : Str :=
+  (self_name ++ (['T', 'r', 'a', 'n', 's', 'p', 'o', 'r', 't'] : Str))
+
+-- gapic/schema/wrappers.py — Service.grpc_transport_name
+def service_grpc_transport_name (self_name : Str) : Str :=
+  (self_name ++ (['G', 'r', 'p', 'c', 'T', 'r', 'a', 'n', 's', 'p', 'o', 'r', 't'] : Str))
+
+-- gapic/schema/wrappers.py — Service.grpc_asyncio_transport_name
+def service_grpc_asyncio_transport_name (self_name : Str) : Str :=
+  (self_name ++ (['G', 'r', 'p', 'c', 'A', 's', 'y', 'n', 'c', 'I', 'O', 'T', 'r', 'a', 'n', 's', 'p', 'o', 'r', 't'] : Str))
+
+-- gapic/schema/wrappers.py — Service.rest_transport_name
+def service_rest_transport_name (self_name : Str) : Str :=
+  (self_name ++ (['R', 'e', 's', 't', 'T', 'r', 'a', 'n', 's', 'p', 'o', 'r', 't'] : Str))
+
+-- gapic/schema/wrappers.py — Service.module_name
+def service_module_name (self_name : Str) : Str :=
+  (to_snake_case self_name)
+
+-- gapic/schema/naming.py — Naming.module_name
+def naming_module_name (self_name : Str) : Str :=
+  (to_valid_module_name self_name)
+
+-- gapic/schema/naming.py — NewNaming.versioned_module_name
+def new_naming_versioned_module_name (self_module_name : Str) (self_version : Str) : Str :=
+  (self_module_name ++ (if (truthy self_version) then ((['_'] : Str) ++ self_version) else ([] : Str)))
+
+-- gapic/schema/naming.py — OldNaming.versioned_module_name
+def old_naming_versioned_module_name (self_module_name : Str) (self_version : Str) : Str :=
+  (self_module_name ++ (if (truthy self_version) then ((['.'] : Str) ++ self_version) else ([] : Str)))
+
 -- gapic/schema/metadata.py — Metadata.doc
 def metadata_doc (leading : Str) (trailing : Str) (detached : List Str) : Str :=
   if (truthy leading) then
